@@ -112,6 +112,11 @@ def check_spec(spec, meta, index):
                             continue
                         if not f64 and method == 'linear':
                             continue
+                        if not f64 and ref.get('min_pos') is not None and ref['min_pos'] < 1e-2:
+                            # float32 runs stop on an absolute change <= 1e-5: fixed points with entries below 1e-2 have no
+                            # relative accuracy to speak of there (nor have the gradients, multilinear in them)
+                            obs['float32_skipped_tiny_fixed_point'] = obs.get('float32_skipped_tiny_fixed_point', 0) + 1
+                            continue
                         out = run_config(fggs, spec, S, method, jpre, dtype, True, ref['cot'], zmask)
                         obs['configurations'] += 1
                         obs['jpre_true_runs'] += int(jpre)
